@@ -47,9 +47,18 @@ static STATE: Mutex<Option<State>> = Mutex::new(None);
 static CV: Condvar = Condvar::new();
 thread_local! { static ME: Cell<usize> = Cell::new(0); }
 
+static ALLOWED: Mutex<Option<Vec<&'static str>>> = Mutex::new(None);
+
 pub fn install(sched: Vec<usize>) {
     *STATE.lock().unwrap() = Some(State { sched, pos: 0, finished: vec![], diverged: false });
     metrics::verif_sched::set_hook(Some(hook));
+}
+
+/// like `install`, but only yields with one of the given labels are scheduled (others pass through): used when
+/// the replay has to go through instrumented code that the scenario does not model (e.g. the global-recorder lookup)
+pub fn install_filtered(sched: Vec<usize>, allowed: &[&'static str]) {
+    *ALLOWED.lock().unwrap() = Some(allowed.to_vec());
+    install(sched);
 }
 pub fn set_thread(t: usize) {
     ME.with(|m| m.set(t));
@@ -69,10 +78,15 @@ pub fn consumed() -> (usize, usize) {
     STATE.lock().unwrap().as_ref().map_or((0, 0), |s| (s.pos, s.sched.len()))
 }
 
-fn hook(_what: &'static str) {
+fn hook(what: &'static str) {
     let me = ME.with(|m| m.get());
     if me == 0 {
         return; // main / setup thread is not scheduled
+    }
+    if let Some(a) = ALLOWED.lock().unwrap().as_ref() {
+        if !a.contains(&what) {
+            return;
+        }
     }
     let mut g = STATE.lock().unwrap();
     loop {
